@@ -28,7 +28,7 @@ func runC19(p *Prog, l *Ledger) {
 	l.NotCovered = []string{"eventual service of every queued caller within the backlog timeout (liveness/timing); prerequisites are in C10", "ordering map is decided in C11/O3"}
 	limNamed := p.coreNamed("Limiter")
 	importObligations(p, l, "C10", "O3", nil)
-	importObligations(p, l, "C02", "O3", func(o *Obligation) bool { return o.Rule == "O3" || o.Rule == "O4" || o.Rule == "O2" })
+	importObligations(p, l, "C02", "O3", func(o *Obligation) bool { return o.Rule == "O1" || o.Rule == "O3" || o.Rule == "O4" || o.Rule == "O2" })
 	n := 0
 	for _, T := range p.structTypes("patterns/pool") {
 		lf := fieldsOfType(T, limNamed)
